@@ -29,6 +29,19 @@ def _load():
 ENGINES = _load()
 
 
+def extras_of(prop):
+    """Additional sub-checks contributed by other bindings (composition engines): module-level EXTRA = {prop_id: fn(rep)}."""
+    out = []
+    for name in _modules():
+        if name in BROKEN:
+            continue
+        mod = importlib.import_module("harness.bindings." + name)
+        fn = getattr(mod, "EXTRA", {}).get(prop)
+        if fn is not None:
+            out.append((name, fn))
+    return out
+
+
 def engine_of(prop):
     for e, props in ENGINES.items():
         if prop in props:
